@@ -30,6 +30,22 @@ class Sun(object):
         return f"Sun({self.n!r})"
 
 
+class Galaxy(object):
+    """a user type whose (generic) codec writes a DIRECTORY of part files at the location it is given"""
+
+    def __init__(self, n):
+        self.n = n
+
+    def __eq__(self, o):
+        return type(o) is Galaxy and o.n == self.n
+
+    def __hash__(self):
+        return hash(("Galaxy", self.n))
+
+    def __repr__(self):
+        return f"Galaxy({self.n!r})"
+
+
 class TaggedStr(str):
     """a subclass of a builtin result type with state of its own (no codec handles it: it is pickled)"""
 
@@ -90,6 +106,29 @@ def make_codecs():
             USE_LOG.append(("de", "user.sun"))
             with open(str(loc), "rb") as f:
                 return Sun(int(f.read().decode().split("=")[1]))
+
+    class GalaxyPartsCodec(CodecProtocol):
+        def ref(self):
+            return ProtocolRef("user.galaxy_parts")
+
+        def handled_types(self):
+            return [STU.from_type(Galaxy)]
+
+        def serialize_into(self, blob, loc):
+            import os
+
+            USE_LOG.append(("ser", "user.galaxy_parts"))
+            os.makedirs(str(loc), exist_ok=True)
+            for i, piece in enumerate(("galaxy", str(blob.n))):
+                with open(os.path.join(str(loc), f"part-{i}"), "w") as f:
+                    f.write(piece)
+
+        def deserialize_from(self, loc):
+            import os
+
+            USE_LOG.append(("de", "user.galaxy_parts"))
+            with open(os.path.join(str(loc), "part-1")) as f:
+                return Galaxy(int(f.read()))
 
     class AltMoonFileCodec(FileCodecProtocol):
         """another codec for the same type with another reference and another format"""
@@ -153,7 +192,7 @@ def make_codecs():
             with open(str(loc), "rb") as f:
                 return frozenset(ast.literal_eval(f.read().decode()))
 
-    return {"moon": MoonFileCodec(), "sun": SunCodec(), "moon_alt": AltMoonFileCodec(), "altstr": AltStrCodec(),
+    return {"galaxy": GalaxyPartsCodec(), "moon": MoonFileCodec(), "sun": SunCodec(), "moon_alt": AltMoonFileCodec(), "altstr": AltStrCodec(),
             "shout": ShoutingStringCodec(), "other": OtherTypeFileCodec()}
 
 
